@@ -123,7 +123,9 @@ impl Minifier
 				parent = parent.parent().unwrap();
 			}
 			let next = parent.next_named_sibling().unwrap();
-			return cannot_follow.contains(next.kind());
+			// the table is about a token that comes right after the name, not after a subscript
+			let between = &self.line[curs.node().end_byte()..next.start_byte().max(curs.node().end_byte())];
+			return between.trim().len()==0 && cannot_follow.contains(next.kind());
 		}
 		return false;
 	}
